@@ -24,6 +24,25 @@ Definition pow2_16 (a : Z) : Prop :=
 
 Definition in_s32 (x : Z) : Prop := -2147483648 <= x < 2147483648.
 
+(* What the call sites establish before a table-descriptor leaf runs, in the C and in the model alike:
+   verify_table fills the descriptor only after it has checked the table header (position > 0, 4-aligned, header inside
+   the buffer), the vtable position (even, below 2^31, header inside the buffer), the vtable size (even, >= 4, vtable
+   inside the buffer) and the table size (inside the buffer); vsize and tsize are 16-bit words read from the buffer.
+   LeafInv.v proves that the model's verify_table hands only such descriptors to a table verifier.  Stated as a
+   bool so that the witness search can filter its grid with it. *)
+Definition td_invb (d : td) : bool :=
+  (0 <=? t_end d) && (t_end d <? 4294967296) &&
+  (0 <? t_table d) && (t_table d mod 4 =? 0) && (t_table d + 4 <=? t_end d) &&
+  (0 <=? t_vtable d) && (t_vtable d <? 2147483648) && (t_vtable d mod 2 =? 0) && (t_vtable d + 2 <=? t_end d) &&
+  (4 <=? t_vsize d) && (t_vsize d <? 65536) && (t_vsize d mod 2 =? 0) && (t_vtable d + t_vsize d <=? t_end d) &&
+  (0 <=? t_tsize d) && (t_tsize d <? 65536) && (t_tsize d <=? t_end d - t_table d).
+Definition td_inv (d : td) : Prop := td_invb d = true.
+
+(* field ids the schema compiler can emit (Schema.field_wf: 0 <= fid < 32764, and fid >= 1 for a union whose type
+   field is looked up at fid - 1); in this range (id + 2) * sizeof(voffset_t) does not wrap in 16 bits *)
+Definition id_okb (id : Z) : bool := (0 <=? id) && (id <? 32764).
+Definition id_ok (id : Z) : Prop := id_okb id = true.
+
 Lemma land_lit x m : (0 <=? m) && (m + 1 =? 2 ^ Z.log2 (m + 1)) = true -> Z.land x m = x mod (m + 1).
 Proof.
   intros H. apply andb_true_iff in H. destruct H as [H0 H1]. apply Z.leb_le in H0. apply Z.eqb_eq in H1.
@@ -161,6 +180,13 @@ Ltac unwrap := repeat unwrap_step; unfold kmod in *.
 
 Ltac leaf_auto :=
   repeat match goal with H : _ /\ _ |- _ => destruct H end;
+  unfold td_inv, td_invb, id_ok, id_okb in *;
+  repeat match goal with H : _ && _ = true |- _ => apply andb_prop in H; destruct H end;
+  repeat match goal with
+         | H : (_ <=? _) = true |- _ => apply Z.leb_le in H
+         | H : (_ <? _) = true |- _ => apply Z.ltb_lt in H
+         | H : (_ =? _) = true |- _ => apply Z.eqb_eq in H
+         end;
   unfold in_u8, in_u16, in_u32, in_u64 in *;
   try match goal with H : pow2_16 ?a |- _ => pose proof (pow2_16_bound a H) end;
   unfold_Z_consts; cbv beta iota zeta; unwrap;
